@@ -26,6 +26,9 @@ TRANSPARENT_RE = [re.compile(x) for x in TRANSPARENT]
 SCALAR_RE = re.compile(r"^(?:[ui](?:8|16|32|64|128|size)|bool|char|f32|f64|\(\))$")
 
 
+BORROW_ONLY = {"get_mut", "iter_mut", "values_mut", "as_mut", "as_mut_slice", "deref_mut", "first_mut", "last_mut", "borrow_mut", "as_mut_ptr", "get", "iter", "len", "is_empty", "contains", "contains_key"}
+
+
 class Site:
     __slots__ = ("fn", "block", "idx", "kind", "data")
 
@@ -557,6 +560,11 @@ class Program:
                             out.add(("?", fk))
                     # ('u', name) entries of closures are mapped at the creation site
         elif table is self.eff:
+            # std accessors that only hand out a reference (`get_mut`, `iter_mut`, `as_mut`, ..) do not change the
+            # container; what is later written through the reference is a write statement of its own
+            cal = t["func"].get("const", {}).get("fn", {}).get("path", "") if isinstance(t.get("func"), dict) else ""
+            if strip_generics(cal).rsplit("::", 1)[-1] in BORROW_ONLY and not cal.startswith("raft"):
+                return
             for op in t["args"]:
                 pl = op.get("move") or op.get("copy")
                 if pl is None or pl["p"]:
